@@ -23,14 +23,16 @@ Lemma adv_fact_valid : forallb valid_block adv_image = true.
 Proof. vm_compute. reflexivity. Qed.
 Lemma adv_fact_size : scan_size adv_image = Some (36355, 253962).
 Proof. vm_compute. reflexivity. Qed.
+Lemma adv_fact_bytes : scan_bytes adv_image = Some 36355.
+Proof. vm_compute. reflexivity. Qed.
 Lemma adv_fact_buf : tj3JPEGBufSize 128 128 tjsamp_gray = 34816.
 Proof. vm_compute. reflexivity. Qed.
 
 Theorem worstcase_refuted : ~ worstcase_sufficient_full.
 Proof.
   intros H.
-  specialize (H 128 128 adv_image 36355 eq_refl eq_refl adv_fact_len adv_fact_valid).
-  unfold scan_bytes in H. rewrite adv_fact_size, adv_fact_buf in H. specialize (H eq_refl). apply H. reflexivity.
+  pose proof (H 128 128 adv_image 36355 eq_refl eq_refl adv_fact_len adv_fact_valid adv_fact_bytes) as H1.
+  rewrite adv_fact_buf in H1. apply H1. reflexivity.
 Qed.
 
 (* the same as an explicit witness *)
@@ -40,7 +42,7 @@ Theorem worstcase_witness : exists w h blocks bytes,
 Proof.
   exists 128, 128, adv_image, 36355.
   split; [exact adv_fact_len|]. split; [exact adv_fact_valid|].
-  split; [unfold scan_bytes; rewrite adv_fact_size; reflexivity|]. rewrite adv_fact_buf. reflexivity.
+  split; [exact adv_fact_bytes|]. rewrite adv_fact_buf. reflexivity.
 Qed.
 
 (* PAD is rounding up to a multiple of the (power of two) MCU size *)
